@@ -183,7 +183,8 @@ package prover
 //@   requires circuit.BatchSize <= 4294967295
 //@   requires circuit.BatchSize >= 0 && len(circuit.IdComms) == circuit.BatchSize && len(circuit.MerkleProofs) == circuit.BatchSize
 //@   requires forall j :: 0 <= j && j < circuit.BatchSize ==> len(circuit.MerkleProofs[j]) == circuit.Depth
-//@   requires 0 <= circuit.Depth && circuit.Depth <= 32
+//@   requires circuit.Depth >= 0
+//@   when circuit.Depth <= 32
 //@   let B = circuit.BatchSize
 //@   let n = 544 + 256 * B
 //@   let msg = pack.insBits(circuit.StartIndex, circuit.PreRoot, circuit.PostRoot, circuit.IdComms)
@@ -216,7 +217,7 @@ package prover
 //@   requires circuit.BatchSize >= 0 && len(circuit.IdComms) == circuit.BatchSize && len(circuit.MerkleProofs) == circuit.BatchSize
 //@   requires len(circuit.DeletionIndices) == circuit.BatchSize
 //@   requires forall j :: 0 <= j && j < circuit.BatchSize ==> len(circuit.MerkleProofs[j]) == circuit.Depth
-//@   requires 0 <= circuit.Depth
+//@   requires circuit.Depth >= 0
 //@   let B = circuit.BatchSize
 //@   let n = 32 * B + 512
 //@   let msg = pack.delBits(circuit.DeletionIndices, circuit.PreRoot, circuit.PostRoot, B)
